@@ -224,4 +224,26 @@ theorem let_result_invariant (σ : World) (parent : Option String) (p p' : Input
     exact SameUpToNames.refl _
   exact h2.1
 
+/-- Non-vacuity of `NameBlind`: a world whose user code ignores the names satisfies it; one whose chains look at the
+    names in scope does not — the hypothesis of `let_result_invariant` separates the two. -/
+def blindWorld : World where
+  capture b k e i _ := .ok (.atom (b + k + e + i))
+  chain b k _ _ _ := ⟨[], .ok (.succ (.atom (b + 10 * k)))⟩
+  handlerDef := .ok ()
+  handlerCall _ := .ok (.atom 0)
+  joiner _ vs := .ok (mkTuple vs)
+
+def readingWorld : World := { blindWorld with chain := fun _ _ _ _ vis => ⟨[], .ok (.succ (.atom vis.length))⟩ }
+
+example : NameBlind blindWorld := ⟨fun _ _ _ _ _ => rfl, fun _ _ _ _ _ => rfl⟩
+
+example : ¬ NameBlind readingWorld := by
+  intro h
+  have := h.2 0 0 none [] [("x", .atom 0)]
+  simp [readingWorld] at this
+
+/-- …and of `name_bound_to_latest`: branch 1 is named `x` and has produced 21. -/
+example : ("x", Value.atom 21) ∈ visibleSpec [none, some "x"] [some (.atom 0), some (.atom 21)] :=
+  name_bound_to_latest _ _ 1 "x" (.atom 21) rfl rfl
+
 end JoinModel.Props.C12
